@@ -162,11 +162,14 @@ class Args:
             return ('builtin', p(['len', 'str', 'dict', 'keys', 'map', 'list', 'int', 'sorted', 'get', 'push']))
         raise ValueError(spec)
 
-    def call(self, name, typed_ratio=4):
-        """-> list of argument values for builtin `name`"""
+    def call(self, name, typed_ratio=4, overflow=0):
+        """-> list of argument values for builtin `name`; overflow: 1 call in `overflow` gets 1-2 extra trailing arguments"""
         shapes = SHAPES.get(name)
         if shapes and self.n(typed_ratio + 1) != 0:
-            return [self.value(s) for s in self.pick(shapes)]
+            args = [self.value(s) for s in self.pick(shapes)]
+            if overflow and self.n(overflow) == 0:
+                args += [self.value(self.pick(['dict', 'list', 'pairs', 'any', 'nested'])) for _ in range(1 + self.n(2))]
+            return args
         return [self.value(self.pick(ANY_SPECS)) for _ in range(self.n(5))]
 
 
